@@ -25,6 +25,8 @@ type StructOpts struct {
 	NConverters      int
 	// CLIPackage: a CLI-level output:package PATH:NAME that every converter overrides with its own PATH
 	CLIPackage bool
+	// PointerKeys: map keys may be pointers or structs holding pointers
+	PointerKeys bool
 	// MethodSkipCopy: skipCopySameType is written on the first method only (siblings and shared sub-methods must deep-copy)
 	MethodSkipCopy bool
 	NValues        int
@@ -190,6 +192,15 @@ func (g *sgen) keyType() *Type {
 		return Basic("string")
 	case 2:
 		return Struct(F("A", Basic("int")), F("B", Basic("string")))
+	case 3:
+		// keys that hold pointers: the converted key must point to a copy
+		if g.o.PointerKeys {
+			if r.Intn(2) == 0 {
+				return Ptr(Basic(keyBasics[r.Intn(len(keyBasics))]))
+			}
+			return Struct(F("P", Ptr(Basic("int"))), F("B", Basic("string")))
+		}
+		return Basic("string")
 	default:
 		return Basic(keyBasics[r.Intn(len(keyBasics))])
 	}
